@@ -37,3 +37,19 @@ package table
 //@   invariant all(a, high+1, len(i.Entries), cmp(i.Entries[a].EndKey, key) >= 0)
 //@   invariant high == len(i.Entries)-1 || (high >= 0 && cmp(i.Entries[high].EndKey, key) >= 0)
 //@   decreases high - low + 1
+//
+// C11: footer and meta block. Encode writes the fixed-width little-endian tokens into a buffer it
+// owns and returns a fresh copy (never a slice of pooled memory); Decode of exactly those bytes
+// gives the fields back.
+//@ define footerEnc(a, b, c, d, e) = le64(a) + le64(b) + le64(c) + le64(d) + le64(e)
+//@ func (*table.Footer).Encode -> r, err
+//@ props C11 C12
+//@ assigns BufC, BufStore, BufOwned
+//@ ensures err == nil && r != nil && arrid(r) >= old(alloc)
+//@ ensures string(r) == footerEnc(f.MetaBlock.Offset, f.MetaBlock.Length, f.IndexBlock.Offset, f.IndexBlock.Length, f.Magic)
+//
+//@ func (*table.Meta).Encode -> r, err
+//@ props C11 C12
+//@ assigns BufC, BufStore, BufOwned
+//@ ensures err == nil && r != nil && arrid(r) >= old(alloc)
+//@ ensures string(r) == le64(u64of(m.CreatedUnix)) + le64(m.Level)
